@@ -1,7 +1,7 @@
 (* C05 -- Results do not depend on thread scheduling.  Property theorems only. *)
 From Coq Require Import List NArith.
 From FP Require Import Model.Base Model.Rdh Model.Scanner Model.CdpRunning Model.Link Model.Collector Model.System Spec.Framing Spec.GroundTruth
-  Proofs.Interleave Proofs.C03_proofs Proofs.C05_proofs Proofs.C07_run Proofs.C14_proofs Proofs.C05_run.
+  Proofs.Interleave Proofs.C03_proofs Proofs.C05_proofs Proofs.C07_run Proofs.C14_proofs Proofs.C05_run Model.Views Model.SystemView Proofs.C05_reportless.
 From FP Require Gen.Facts.
 Import ListNotations.
 Open Scope N_scope.
@@ -113,6 +113,20 @@ Theorem C05_layout_proviso_needed :
                                        map m_off sh1 = map m_off sh2).
 Proof. exact c05_layout_proviso_needed. Qed.
 
+(* THE RUNS THAT PRINT NO REPORT (`view rdh`, the readout-frame views, filtered writing): the collector receives the main thread's and -- in
+   the views -- the analysis thread's statistics in some interleaving.  For every well-framed, recognised input whose views end normally
+   and EVERY arrival order, the final collector state (statistics file) and the exit status are those of the model's own run.  (The view
+   rows and the written bytes are produced by one thread in input order: C19_view_*_whole_input, C08.) *)
+Theorem C05_reportless_run : forall c m pkts ff a,
+  Forall wf_pkt pkts -> N.of_nat (length pkts) < U32_MAX -> pay_all pkts < U32_MAX ->
+  (forall p r, pkts = p :: r -> known_sysid (r_system_id (hdr p)) = true) ->
+  Nat.ltb (length (serialize pkts)) 8 = false -> recognised (serialize pkts) = true -> views_done m (serialize pkts) c ->
+  Interleave (rl_streams c m (serialize pkts)) a -> finish_rl ff c a = run_reportless ff c m (serialize pkts).
+Proof.
+  exact (fun c m pkts ff a H1 H2 H3 H4 => c05_reportless_run c m pkts (eq_refl : Gen.Facts.cdp_offset_sampled_after = true)
+           (eq_refl : Gen.Facts.error_sort_when_muted = true) H1 H2 H3 H4 ff a).
+Qed.
+
 Print Assumptions C05_collector_schedule_independent.
 Print Assumptions C05_sort_is_the_codes.
 Print Assumptions C05_stable_sort_determined.
@@ -123,3 +137,4 @@ Print Assumptions C05_model_run_is_one_schedule.
 Print Assumptions C05_run_streams_ok.
 Print Assumptions C05_whole_run_nonvacuous.
 Print Assumptions C05_layout_proviso_needed.
+Print Assumptions C05_reportless_run.
